@@ -808,21 +808,35 @@ class QueryObjectDescriptor(SymbolicExpression[T], ABC):
         self, sources: Dict[int, HashedValue]
     ) -> Iterable[OperationResult]:
         """
-        Evaluate the selected variables by generating combinations of values from their evaluation generators.
+        Evaluate the selected variables one after the other, each with the bindings produced by the previous ones, such
+        that every result is one consistent assignment of the variables the selected expressions share.
 
         :param sources: The current bindings.
         :return: An Iterable of OperationResults for each combination of values.
         """
-        var_val_gen = {
-            var: var._evaluate__(copy(sources), parent=self)
-            for var in self.selected_variables
-        }
-        for sol in generate_combinations(var_val_gen):
-            var_val = {var._id_: sol[var][var._id_] for var in self.selected_variables}
-            self._is_false_ = self._is_false_ or any(
-                sol[var].is_false for var in self.selected_variables
+        yield from self._evaluate_selected_variables_from_(0, copy(sources), False)
+
+    def _evaluate_selected_variables_from_(
+        self, index: int, bindings: Dict[int, HashedValue], is_false: bool
+    ) -> Iterable[OperationResult]:
+        """
+        Evaluate the selected variables starting at the given index using the bindings of the previous ones.
+
+        :param index: The index of the next selected variable to evaluate.
+        :param bindings: The bindings produced so far.
+        :param is_false: Whether any of the previous selected variables evaluated to a false value.
+        :return: An Iterable of OperationResults that bind all selected variables.
+        """
+        if index == len(self.selected_variables):
+            yield OperationResult(bindings, is_false, self)
+            return
+        var = self.selected_variables[index]
+        for var_val in var._evaluate__(bindings, parent=self):
+            yield from self._evaluate_selected_variables_from_(
+                index + 1,
+                {**var_val.bindings, var._id_: var_val[var._id_]},
+                is_false or var_val.is_false,
             )
-            yield OperationResult({**sources, **var_val}, self._is_false_, self)
 
     @cached_property
     def _all_variable_instances_(self) -> List[Variable]:
